@@ -178,6 +178,9 @@ def scalar_value(rng: Any, s: Any, nonzero: bool = True) -> Any:
 
 
 def a_homothety(rng: Any, s: Any) -> Any:
+    if rng.integers(6) == 0:
+        # a NumPy 0-d array is an accepted scalar value too
+        return HomothetyOperator(np.asarray(float(scalar_value(rng, s)), dtype=data_dtype(s)), s)
     return HomothetyOperator(jnp.asarray(scalar_value(rng, s), dtype=data_dtype(s)), s)
 
 
